@@ -26,7 +26,7 @@ func init() {
 				"consulted before the question-type gate, is keyed injectively by host, type, class and direction.",
 			NotCovered: "EQUALITY WITH THE SHA-256 SET MODEL (that Matches/Hashes return exactly the listed names' hashes) and THE PUBLIC-SUFFIX / FOUR-LABEL CUT of hashableSubdomains: " +
 				"hash and string computations outside static reach.",
-			Rules: map[string]string{"C11-R20": "pre-service middleware: a TXT question of any class is handled by respondWithHashes alone, every other question by the DNS check", "C11-R18": "setSafeBrowsing and setParental install every selected safety filter under its own switch (tables shared with C02-R26)", "C11-R19": "agdnet.NormalizeDomain lower-cases every ASCII letter of the name that is hashed (shared with C10-R12)", "C11-R17": "builder: the TXT matcher is created after the filters have registered their storages", "C11-R16": "hash-prefix result cache: collision check on the stored host (shared with C12-R6)", "C11-RC": "class rules (error chains, shadowed results, character classes, crossed arguments, pool constructors, array pools, loop completeness, loop-carried buffers, replacing setters, complete clones, Grow arithmetic, pooled-buffer escape, sorted searches, fresh decode targets, per-iteration objects, whole-message copies, codec guards) over the packages this property rests on", "C11-R15": "list sources are read through readers that fail at the size limit, never through one that cuts silently (shared with C13-R7)", "C11-R14": "hash-prefix result cache stores clones and hands out clones (shared with C07-R4)", "C11-R1": "question-type gates", "C11-R2": "prefix length table", "C11-R3": "refuse, not forward", "C11-R4": "digest split agreement",
+			Rules: map[string]string{"C11-R21": "prefixesFromStr decodes the whole prefix string before it cuts a legacy eight-character prefix to four characters (a malformed tail is refused)", "C11-R20": "pre-service middleware: a TXT question of any class is handled by respondWithHashes alone, every other question by the DNS check", "C11-R18": "setSafeBrowsing and setParental install every selected safety filter under its own switch (tables shared with C02-R26)", "C11-R19": "agdnet.NormalizeDomain lower-cases every ASCII letter of the name that is hashed (shared with C10-R12)", "C11-R17": "builder: the TXT matcher is created after the filters have registered their storages", "C11-R16": "hash-prefix result cache: collision check on the stored host (shared with C12-R6)", "C11-RC": "class rules (error chains, shadowed results, character classes, crossed arguments, pool constructors, array pools, loop completeness, loop-carried buffers, replacing setters, complete clones, Grow arithmetic, pooled-buffer escape, sorted searches, fresh decode targets, per-iteration objects, whole-message copies, codec guards) over the packages this property rests on", "C11-R15": "list sources are read through readers that fail at the size limit, never through one that cuts silently (shared with C13-R7)", "C11-R14": "hash-prefix result cache stores clones and hands out clones (shared with C07-R4)", "C11-R1": "question-type gates", "C11-R2": "prefix length table", "C11-R3": "refuse, not forward", "C11-R4": "digest split agreement",
 				"C11-R13": "(*Storage).Matches compares the digest with every suffix of its bucket (a range loop left early only by the hit); binary searches need a sorted-data discipline (shared rule, also run over bindtodevice's index as the positive instance)",
 				"C11-R7":  "hashprefix.Filter.FilterRequest: cache first; then the type gate; then every candidate name (host and parents) is matched in order until the first hit; a hit is answered with the replacement built for this request and cached under this request's key",
 				"C11-R11": "builder wiring of the three hash-prefix filters: each filter's ID, cache file, hash storage, list URL and target field belong to the same list (two lists never share a cache file or a storage)",
@@ -38,6 +38,9 @@ func init() {
 
 func runC11(c *an.Ctx) {
 	classSweep(c, "C11")
+	// ---- R21: a legacy prefix is validated as a whole before its tail is cut off
+	c.Floor("C11-R21", 1)
+	c11WholePrefixValidated(c, "C11-R21")
 	// ---- R20: every TXT question reaches the hash-prefix responder, whatever its class
 	c.Floor("C11-R20", 1)
 	c11PreserviceDispatch(c, "C11-R20")
@@ -168,7 +171,7 @@ func runC11(c *an.Ctx) {
 	encLen, _ := c.ConstInt("filter/hashprefix", "PrefixEncLen")
 	decide(c, "C11-R2", "filter/hashprefix.prefixesFromStr", an.DecideCfg{
 		Dom: an.Domain{`(p0 == "")`: an.Bools, "nseg": an.Ints(1, 2), "len(s0)": an.Ints(0, 3, 4, 5, 6, 7, 8, 9, 64), "len(s1)": an.Ints(4, 6, 8),
-			"nvals": an.Ints(0, 1), "decodeerr": an.Bools},
+			"nvals": an.Ints(0, 1), "decodeerr": an.Bools, "tailerr0": an.Bools, "tailerr1": an.Bools},
 		OnCall: func(it *an.Interp, name string, args []an.AV) (an.AV, bool) {
 			switch {
 			case name == "strings.Split":
@@ -186,6 +189,17 @@ func runC11(c *an.Ctx) {
 				return an.AV{Kind: an.KSlice, Key: "[]"}, true
 			case strings.HasSuffix(name, ").Len"):
 				return it.Feature("nvals"), true
+			case name == "encoding/hex.DecodeString":
+				// the whole legacy prefix is decoded before it is cut (see C11-R21)
+				k := "tailerr0"
+				if len(args) == 1 && args[0].String() == "s1" {
+					k = "tailerr1"
+				}
+				e := an.Nil()
+				if it.Feature(k).IsTrue() {
+					e = an.NonNil("tailErr")
+				}
+				return an.AV{Kind: an.KTuple, Tup: []an.AV{an.Sym("decoded"), e}}, true
 			case name == "encoding/hex.Decode":
 				e := an.Nil()
 				if it.Feature("decodeerr").IsTrue() {
@@ -218,6 +232,10 @@ func runC11(c *an.Ctx) {
 				case encLen:
 					want = append(want, fmt.Sprintf("s%d", i))
 				case 8:
+					if f.B(fmt.Sprintf("tailerr%d", i)) {
+						bad = true // a legacy prefix that is not hexadecimal throughout
+						break
+					}
 					want = append(want, fmt.Sprintf("s%d[:%d]", i, encLen))
 				default:
 					bad = true
@@ -230,7 +248,7 @@ func runC11(c *an.Ctx) {
 				if o.Ret[1].Kind != an.KNil {
 					return ""
 				}
-				return "an error for a prefix that is neither four nor eight characters long"
+				return "an error for a prefix that is neither four nor eight characters long, or an eight-character one that is not hexadecimal throughout"
 			}
 			if strings.Join(added, ",") != strings.Join(want, ",") {
 				return fmt.Sprintf("prefixes %v collected (eight-character ones truncated to four); got %v", want, added)
@@ -1079,4 +1097,61 @@ func c11PreserviceDispatch(c *an.Ctx, rule string) {
 			return ""
 		},
 	})
+}
+
+// c11WholePrefixValidated: a prefix string that is cut before it is decoded (the
+// legacy eight-character form is reduced to its first four characters) is
+// validated as a whole first.  Otherwise the part that is cut off is never
+// looked at, and a malformed prefix whose head happens to be valid is answered
+// instead of refused.  In prefixesFromStr every string slice of a prefix
+// element must be dominated by a hex decoding call that is given the uncut
+// string.
+func c11WholePrefixValidated(c *an.Ctx, rule string) {
+	const k = "filter/hashprefix.prefixesFromStr"
+	fn := c.Fn(k)
+	key := k + " validates a prefix before it cuts it"
+	if fn == nil {
+		c.Und(rule, key, token.NoPos, "anchor not found")
+		return
+	}
+	c.Analysed(k)
+	isBytesOf := func(v, s ssa.Value) bool {
+		for {
+			switch x := v.(type) {
+			case *ssa.Convert:
+				v = x.X
+				continue
+			case *ssa.ChangeType:
+				v = x.X
+				continue
+			}
+			return v == s
+		}
+	}
+	n := 0
+	bad := ""
+	an.Instrs(fn, func(in ssa.Instruction) {
+		sl, ok := in.(*ssa.Slice)
+		if !ok || !isBasicKind(sl.X.Type(), types.String) || sl.High == nil {
+			return
+		}
+		n++
+		validated := false
+		for _, call := range an.Calls(fn) {
+			name := an.CalleeName(call)
+			if !strings.HasPrefix(name, "encoding/hex.Decode") && !strings.Contains(name, "hex.DecodeString") {
+				continue
+			}
+			for _, a := range call.Common().Args {
+				if isBytesOf(a, sl.X) && an.Dominates(call, sl) {
+					validated = true
+				}
+			}
+		}
+		if !validated {
+			bad = "the prefix is cut at " + c.Pos(sl.Pos()) + " without the uncut string having been decoded"
+		}
+	})
+	c.Check(n > 0 && bad == "", rule, key, fn.Pos(), fmt.Sprintf("%d cuts of a prefix string, each after the whole string was decoded", n),
+		bad+": the characters that are cut off are never validated, so a malformed legacy prefix with a valid head is answered, not refused")
 }
